@@ -42,7 +42,7 @@ def node_cap(tier, system_name):
         cap //= 4
     return cap
 CFGS_PER_SYSTEM = {"quick": 3, "thorough": 5}
-DEFAULT_ON = "0"  # flipped to "1" once every check has been run silent with pairs (VERIF_PAIRS overrides)
+DEFAULT_ON = "1"  # both derived families are on (validated silent on every check for VERIF_SEED 0 and 1; VERIF_PAIRS=0 / VERIF_FAULTS=0 switch them off)
 
 
 class Pair(System):
